@@ -72,6 +72,15 @@ func (m *Module) classIdentifierProcessing(
 		if nextT.IsTargetIdentifier("private") {
 			methodT := base.GetMethodT("Builtin", "", "private", false)
 			if methodT != nil {
+				isHandled, err := evalPrivateWithArguments(e, p, *ctx)
+				if err != nil {
+					p.Fatal(*ctx, err)
+				}
+
+				if isHandled {
+					continue
+				}
+
 				ctx.StartPrivate()
 				defer ctx.EndPrivate()
 			}
@@ -166,6 +175,15 @@ func (m *Module) Evaluation(
 		if nextT.IsTargetIdentifier("private") {
 			methodT := base.GetMethodT("Builtin", "", "private", false)
 			if methodT != nil {
+				isHandled, err := evalPrivateWithArguments(e, p, ctx)
+				if err != nil {
+					p.Fatal(ctx, err)
+				}
+
+				if isHandled {
+					continue
+				}
+
 				ctx.StartPrivate()
 				defer ctx.EndPrivate()
 			}
